@@ -1,4 +1,31 @@
 reg("C15", "SPDE operators, projections and solvers are mutually consistent",
-    parts=[dict(harness="c15_spde", cases=dict(quick=600, thorough=6000), timeout_case=60)],
-    rule="TODO",
-    require=dict(distinct=20))
+    parts=[dict(harness="c15_spde", cases=dict(quick=640, thorough=4000), timeout_case=90)],
+    rule="case = one (mesh, model) pair drawn from the case PRNG: mesh kind in {MeshETurbo from nx/dx/x0/angles (optionally "
+         "polarized), MeshETurbo from a DbGrid with a selection (masked meshes), MeshETurbo::createFromCova (rotated like the "
+         "model, extension cells), MeshEStandard::createFromExternal on a jittered simplicial lattice under a random affine "
+         "map with relabelled vertices and randomly oriented elements, MeshEStandard copy of a turbo mesh} x ndim in {1,2,3} "
+         "(3..700 vertices quick, ..2500 thorough); model = MATERN (nu with nu+d/2 integer or not -> degree of the precision "
+         "polynomial 1..5) or MARKOV with positive user coefficients (1-D/2-D), sill 0.01..100, range from 0.2 cell to 1.5 "
+         "domain, anisotropy ratio up to 25 with rotation, optional nugget. On each pair: 6 vectors (normal, unit, constant, "
+         "wide dynamic range, affine, end unit) through every PrecisionOp/PrecisionOpCs entry point vs own product with the "
+         "entries of getQ(); symmetry / own dense Cholesky / x'Qx / CholeskySparse; ~40 projected points (strictly inside, on "
+         "interior facets, on vertices, on the hull, outside near and far; optional selection and undefined Z) ; 1..30 data "
+         "in three magnitude classes -> PrecisionOpMultiConditional(Cs) solves, krigingSPDE, krigingSPDENew, "
+         "logLikelihoodSPDE in both modes vs an own dense long-double solution when n <= 130 (quick). distinct = distinct "
+         "(mesh kind, ndim, covariance type, polynomial degree, integer-alpha flag, range class, polarization) signatures "
+         "with at least one non-skipped oracle evaluation",
+    level="exploration",
+    require=dict(distinct=60,
+                 oracles=dict(quick={"matfree-evalDirect": 3000, "Q-vs-formula": 1500, "Q-symmetric": 250, "Q-posdef-chol": 150,
+                                     "cholsparse-succeeds": 250, "solve-residual-chol": 700, "proj-affine": 6000, "proj-outside-empty": 600,
+                                     "solve-residual-cg": 200, "krig-cg-vs-ref": 100, "krig-chol-vs-ref": 100, "loglik-chol-vs-ref": 100},
+                              thorough={"matfree-evalDirect": 40000, "Q-vs-formula": 20000, "Q-symmetric": 3000, "Q-posdef-chol": 1500,
+                                        "cholsparse-succeeds": 3000, "solve-residual-chol": 9000, "proj-affine": 80000, "proj-outside-empty": 8000,
+                                        "solve-residual-cg": 2500, "krig-cg-vs-ref": 1000, "krig-chol-vs-ref": 1000, "loglik-chol-vs-ref": 1000})),
+    assumptions=["the entries of Q, S, the projection matrices and Lambda are read through MatrixSparse::getMatrixToTriplet / getLambdas and "
+                 "trusted as the library's statement of those objects; products, Cholesky factors, solves and eigenvalues used as "
+                 "references are computed by the harness in long double",
+                 "mesh geometry is read through AMesh::getApexCoor / getApex and trusted",
+                 "the data-noise variance used by krigingSPDE is max(nugget, 0.01 * total sill) as coded in SPDE::_init",
+                 "iterative solves are judged only when the cheap upper bound of cond(Q + A'A/s2) is <= 1e9; a solve passes if the true "
+                 "residual meets the coded rule <r,r>/||b|| <= 4e-8 or the relative form ||r|| <= 4e-4 ||b||"])
